@@ -10,7 +10,7 @@ from .. import model as M
 from ..codec import src, unsrc
 from ..common import shard_items, tname
 from ..runner import Acc, parallel
-from ..terms import show, subterms, size, try_build
+from ..terms import show, size, try_build, unique_subterms
 from ..universe import universe
 from ..values import ZOO, inject
 from .c03 import enrich
@@ -59,7 +59,7 @@ def check_value(s, v):
 
 def minimal_site(t, z, kind):
     """Smallest sub-term on which the bare zoo member alone already fails the same way."""
-    for st in sorted(set(subterms(t)), key=lambda x: (size(x), repr(x))):
+    for st in unique_subterms(t):
         s, _ = try_build(st)
         if s is not None and check_value(s, z) == kind:
             return st
